@@ -498,6 +498,13 @@ inductive PyRes where
   | valueError    -- ValueError / ArithmeticError → decode error
   | typeError     -- TypeError → validation error (xs:error)
 
+/-- elementpath `Patterns.whitespaces` = `[^\S\xa0]+` (helpers.py:131): Python's white-space class without NBSP -/
+def isEpWs (c : Char) : Bool := isPyWs c && c.toNat != 0xA0
+
+/-- elementpath `collapse_white_spaces` (helpers.py:164-165): `whitespaces.sub(' ', s).strip(' ')`, applied by
+    `AbstractBinary.__init__` (binary.py:56-61) to the text that xmlschema has already normalised -/
+def epCollapse (s : Str) : Str := strip (· == ' ') (squeeze isEpWs false s)
+
 def toPython (C : Conv) (p : Prim) (t : Str) : PyRes :=
   match p with
   | .string => .ok (.str t)
@@ -505,8 +512,10 @@ def toPython (C : Conv) (p : Prim) (t : Str) : PyRes :=
   | .decimal => match parseDec t with | some d => .ok (.dec d) | Option.none => .valueError
   | .integer => match parseInt t with | some i => .ok (.int i) | Option.none => .valueError
   | .float => if C.fltOk t then .ok (.flt t) else .valueError
-  | .hexBinary => if C.hex t then .ok (.hex t) else .valueError
-  | .base64Binary => match C.b64 t with | some s => .ok (.b64 s) | Option.none => .valueError
+  -- HexBinary(value): collapse_white_spaces, validate, `value.replace(' ', '').encode('ascii')`
+  -- (a valid literal contains no blank, so the stored value is the collapsed text)
+  | .hexBinary => if C.hex (epCollapse t) then .ok (.hex (epCollapse t)) else .valueError
+  | .base64Binary => match C.b64 (epCollapse t) with | some s => .ok (.b64 s) | Option.none => .valueError
   -- elementpath `fromstring` starts with `text.strip()` (Python's white-space class, whatever `W` is)
   | .dt k v11 => match C.dt k v11 (strip isPyWs t) with | some v => .ok (.dt v) | Option.none => .valueError
   | .duration | .dayTimeDuration | .yearMonthDuration =>
